@@ -43,6 +43,13 @@ def after_interrupt_consts():
                       Toggles=0, StartEnabled=[True], Ctl=[], PlayFaults=[])
 
 
+def ctl_free_consts():
+    """replayed code that calls discard_recording() / force_sample_recording() between calls of one output alias: no-ops
+    while replaying, every call is still answered with the result recorded for *its* ordinal"""
+    return gen_consts(3, MaxPSteps=3, MaxRuns=2, InCalls=[('ia1', 1)], OutAliases=['oa1'], InOpts=[opts()], OutOpts=[opts()],
+                      Toggles=0, StartEnabled=[True], Ctl=['discard', 'force'], PlayFaults=[])
+
+
 def run(rep, tier, seed):
     rep.rule = ('behaviours = complete paths of the TLC state graph of Recorder.tla: a recorded program, then one or '
                 'two replays of *arbitrary* programs (calls present or absent in the recording) whose interceptions '
@@ -81,6 +88,7 @@ def run(rep, tier, seed):
                          cassettes=('memory',), n_conc=2, sample=1500, cap=2500)
             chk.generate('nestedorig', nested_orig_consts(), cassettes=('memory',), n_conc=1, sample=2000, cap=3000)
             chk.generate('afterintr', after_interrupt_consts(), cassettes=('memory',), n_conc=1, sample=2000, cap=3000)
+            chk.generate('ctlfree', ctl_free_consts(), cassettes=('memory',), n_conc=1, sample=2000, cap=4000)
         else:
             chk.check('chk', gen_consts(3, MaxRuns=2, Toggles=0, StartEnabled=[True]), invariants=INVS, timeout=3000)
             chk.generate('gen1', gen_consts(1, MaxRuns=2, Toggles=0, StartEnabled=[True]),
@@ -102,6 +110,7 @@ def run(rep, tier, seed):
                          n_conc=2, sample=80000, cap=120000, max_states=600000)
             chk.generate('nestedorig', nested_orig_consts(), cassettes=('memory', 'file'), n_conc=1, all_paths=True, cap=100000)
             chk.generate('afterintr', after_interrupt_consts(), cassettes=('memory', 'file'), n_conc=1, all_paths=True, cap=100000)
+            chk.generate('ctlfree', ctl_free_consts(), cassettes=('memory', 'file'), n_conc=1, sample=40000, cap=60000)
     finally:
         chk.close()
 
